@@ -108,5 +108,7 @@ TripleVerdict(v) ==
        ELSE IF Has(v, "start") /\ v.start # ValueOfInstant(a) THEN "TripleStart: resolved start differs from the start of the TIMEX triple"
        ELSE IF Has(v, "end") /\ v.end # ValueOfInstant(b) /\ ~(a[1] = "t" /\ b[3] = 86400) THEN "TripleEnd: resolved end differs from the end of the TIMEX triple"
        ELSE IF d[1] # "?" /\ ~SpanMatches(a, b, d) THEN "TripleDuration: end minus start differs from the duration of the TIMEX triple"
+       (* PT1H-1M30S: a borrow that was not carried through; a sign may only stand in front of the whole amount (P-3D, PT-20H) *)
+       ELSE IF \E q \in 4..Len(p[3]) : Ch(p[3], q) = "-" THEN "TripleDuration: a component inside the duration of the TIMEX triple is negative"
        ELSE "ok"
 =============================================================================
